@@ -61,6 +61,8 @@ fn main() {
         "C16" => checks::serial::c16(&ctx),
         "C18" => checks::decode::c18(&ctx),
         "C04" => checks::hints::c04(&ctx),
+        "C20" => checks::introspect::c20(&ctx),
+        "C25" => checks::introspect::c25(&ctx),
         "C22" => checks::meta::c22(&ctx),
         "C23" => checks::meta::c23(&ctx),
         #[cfg(feature = "hooks")]
